@@ -134,6 +134,30 @@ def meta_ops(r, n, nf=2, nh=2, budget=300):
     return ops
 
 
+def forget_ops(r, budget=300):
+    """Directed: a weakly referencable result the caller keeps - too big for the cache, or pushed out of it, or
+    resident - is forgotten by each kind of forget without any look-up in between, then asked for in every way."""
+    ops = []
+    f, h = r.randint(1, 3), r.randint(1, 3)
+    state = r.choice(["oversize", "evicted", "resident"])
+    size = budget * 2 if state == "oversize" else budget - 40
+    ops.append({"op": "Memoize", "f": f, "h": h, "value": {"t": "nd", "size": size, "fill": 1}, "ovr": 0})
+    if state == "evicted":
+        g = f % 3 + 1
+        ops.append({"op": "Memoize", "f": g, "h": 1, "value": {"t": "bytes", "size": budget - 30, "fill": 2}, "ovr": 0})
+    if r.random() < 0.3:
+        ops.append({"op": "Memoize", "f": f, "h": h % 3 + 1, "value": {"t": "nd", "size": 80, "fill": 3}, "ovr": 0})
+    ops.append(r.choice([{"op": "ForgetCall", "f": f, "h": h}, {"op": "ForgetFunction", "f": f}, {"op": "ForgetFunction", "f": f},
+                         {"op": "ForgetEverything"}]))
+    tail = [{"op": "IsMemoized", "f": f, "h": h}, {"op": "IsAllMemoized", "keys": [[f, h]]}, {"op": "GetMementos", "keys": [[f, h]]},
+            {"op": "ListMementos", "f": f, "limit": 0}, {"op": "ListFunctions"}]
+    r.shuffle(tail)
+    ops += tail
+    ops.append({"op": "Memoize", "f": f, "h": h, "value": {"t": "nd", "size": 90, "fill": 4}, "ovr": 0})
+    ops += [{"op": "ReadResult", "f": f, "h": h}, {"op": "IsMemoized", "f": f, "h": h}]
+    return ops
+
+
 def ro_attempts(r, n, nf=3, nh=3):
     """Histories for a read-only backend: every kind of operation, writes included."""
     ops = random_ops(r, n, nf, nh, weak=False, writes=True)
@@ -292,7 +316,9 @@ def run(prop, tier):
             nrand = 0
         for i in range(nrand):
             c = dict(rand_cfgs[i % len(rand_cfgs)])
-            if prop == "C05" and i % 7 == 4:
+            if prop in ("C05", "C06") and i % 5 == 3 and c["kind"] == "fs" and c["budget"]:
+                ops = forget_ops(r, c["budget"])
+            elif prop == "C05" and i % 7 == 4:
                 ops = meta_ops(r, ln, budget=c["budget"] or 300)
             else:
                 ops = random_ops(r, ln, budget=c["budget"] or 300, weak=(i % 3 != 0))
